@@ -363,6 +363,22 @@ func operandPure(c *Check, r *Repo, f *ssa.Function, methods map[string]*ssa.Fun
 			}
 		}
 	})
+	// a returned *Set must be fresh too: handing back an operand (or something reachable
+	// from one) lets a later Add on the result change the operand
+	instrsOf(f, func(in ssa.Instruction) {
+		ret, ok := in.(*ssa.Return)
+		if !ok {
+			return
+		}
+		for _, rv := range ret.Results {
+			if _, isPtr := rv.Type().Underlying().(*types.Pointer); !isPtr {
+				continue
+			}
+			if ro := org(rv); ro != oFresh {
+				bad = append(bad, fmt.Sprintf("%s: the result returned here has origin %s, not a set allocated by this call: the caller can modify an operand through it", r.pos(retPos(ret.Block())), originName(ro)))
+			}
+		}
+	})
 	c.Decide(len(bad) == 0, "R-operand-pure", name, r.pos(f.Pos()),
 		fmt.Sprintf("%d store(s) and %d mutator call(s) examined: all go through pointers allocated in this call", nStores, nCalls),
 		strings.Join(bad, "; "))
